@@ -29,6 +29,8 @@ pub async fn handle_did_open_text_document(
     state.documents.handle_open_file(&uri).await;
 
     send_new_compilation_request(state, session.clone(), &uri, None, false, sync_workspace);
+    #[cfg(fuellabs_sway_verif)]
+    sway_utils::verif::step("H.openSet", "");
     state.is_compiling.store(true, Ordering::SeqCst);
     state.wait_for_parsing().await;
     state
@@ -48,20 +50,33 @@ fn send_new_compilation_request(
 ) {
     let file_versions = file_versions(&state.documents, uri, version.map(|v| v as u64));
 
+    #[cfg(fuellabs_sway_verif)]
+    sway_utils::verif::step(
+        "H.load",
+        &format!("\"version\":{}", version.unwrap_or(-1)),
+    );
     if state.is_compiling.load(Ordering::SeqCst) {
         // If we are already compiling, then we need to retrigger compilation
+        #[cfg(fuellabs_sway_verif)]
+        sway_utils::verif::step("H.setRetrigger", "");
         state.retrigger_compilation.store(true, Ordering::SeqCst);
     }
 
     // Check if the channel is full. If it is, we want to ensure that the compilation
     // thread receives only the most recent value.
+    #[cfg(fuellabs_sway_verif)]
+    sway_utils::verif::step("H.isFull", "");
     if state.cb_tx.is_full() {
+        #[cfg(fuellabs_sway_verif)]
+        sway_utils::verif::step("H.drain", "");
         while let Ok(TaskMessage::CompilationContext(_)) = state.cb_rx.try_recv() {
             // Loop will continue to remove `CompilationContext` messages
             // until the channel has no more of them.
         }
     }
 
+    #[cfg(fuellabs_sway_verif)]
+    sway_utils::verif::step("H.send", "");
     let _ = state
         .cb_tx
         .send(TaskMessage::CompilationContext(CompilationContext {
